@@ -14,10 +14,14 @@
 // HONEST: H1, H2 real basic hosts connected to the observer; H3 known to the observer from its peerstore only
 // (addresses, protocols, agent, key, certified record); U appears only inside byzantine messages.
 //
-// One run: 1-3 connections (each identify REQUEST of the observer answered by a drawn behaviour: message, stall,
-// delay, reset, empty, truncated, half, write+reset, decline), then 0-4 actions started as tasks: identify PUSH of
-// a generated message on a drawn connection; close of one connection or of all of them, by byz or by the observer;
-// honest H1 registering a protocol (its real identify pushes concurrently). An action starts at once, or when the
+// One run: 1-3 connections (each identify REQUEST of the observer answered by a drawn behaviour: message, stall
+// after the protocol line, delay, reset, empty, truncated, half a message then silence, write+reset, decline, MUTE =
+// the stream is accepted but multistream-select is never answered; in every silent behaviour byz keeps stream and
+// connection open, without deadline, until the observer gives up), then 0-4 actions started as tasks: identify PUSH
+// of a generated message on a drawn connection (same behaviours: a push stream that says nothing at all, one that
+// negotiates and goes silent, half a message); close of one connection or of all of them, by byz or by the observer;
+// honest H1 registering a protocol (its real identify pushes concurrently); the OBSERVER registering a protocol (its
+// identify opens push streams to every peer; in a third of the runs byz mutes those too). An action starts at once, or when the
 // observer's raw socket of a drawn connection reaches a drawn I/O call index (inside the handshake, the identify
 // exchange or the push), or when the observer's identify makes its j-th peerstore call about byz, with that call
 // held back for 0|400|1200 scheduler decisions (a pause at a chosen point of consumeMessage / Disconnected).
@@ -62,6 +66,14 @@
 //	identify-wait-not-released  for every connection the observer's swarm announced (Connected notifee), the channel of
 //	                  IdentifyWait(conn) closes within 15 s (5 s timeout for opening + 5 s stream deadline + slack),
 //	                  also when the connection closes mid-identify, the responder stalls or declines.
+//	                  The bound is in virtual time, which only advances when every task is blocked: held peerstore
+//	                  calls and the slow-peerstore stratum cost scheduler decisions, not time, so no stratum makes it
+//	                  unsound (StallPermille is 0). A wait younger than the bound at the first check is judged at the end.
+//	identify-stream-left/<dir>-<proto>  identify.DefaultTimeout is documented "for all id interactions, incoming /
+//	                  outgoing, id / id-push": RecentlyConnectedAddrTTL + 2 min after the last activity the observer holds
+//	                  no open /ipfs/id/1.0.0 or /ipfs/id/push/1.0.0 stream (either direction) on a connection to byz that is
+//	                  still open, whatever byz did with it. This is how a wedged sendPushes / handlePush shows, which
+//	                  no IdentifyWait channel depends on.
 //	event-*           EvtPeerIdentificationCompleted: Peer == Conn.RemotePeer(); an event carrying a byzantine tag
 //	                  names byz and the very connection that message was sent on, at most once per send; an event for
 //	                  an honest peer carries that peer's agent string. EvtPeerIdentificationFailed names only peers
@@ -91,6 +103,11 @@
 //	consumeReceivedPubKey ID check removed alone ........................... MISSED, by construction: pstoremem's
 //	  AddPubKey refuses a key that does not match the ID, and with a key already stored identify only compares; the
 //	  mutant is equivalent as far as the peerstore can tell (defence in depth).
+//	second-round seed C13b: stream deadline moved out of newStreamAndNegotiate/handlePush into the message
+//	  handlers, so the outbound multistream negotiation is unbounded (real patch, run through VERIF_REPO on a
+//	  scratch copy) ........................................................ C13/identify-wait-not-released (run 0),
+//	  C13/identify-stream-left/outbound-id and /outbound-id-push (wedged sendPushes); was MISSED before the MUTE
+//	  behaviour existed (byz always answered multistream-select)
 //	Disconnected without addrMu (race) ..................................... 6/6 C13/addr-kept-after-disconnect (needs the held peerstore call)
 //	consumeMessage reads Connectedness before taking addrMu (race with a
 //	  two-decision window, nothing to hold) ................................ 1/8 workers in 50 s in two of three attempts
@@ -157,10 +174,11 @@ const (
 	modeHalfThenStall
 	modeWriteThenReset
 	modeDecline
+	modeMute // accept the stream, never answer multistream-select, keep stream and connection open
 	nModes
 )
 
-var modeNames = []string{"respond", "stall", "delay", "reset", "empty", "truncated", "half-then-stall", "write-then-reset", "decline"}
+var modeNames = []string{"respond", "stall", "delay", "reset", "empty", "truncated", "half-then-stall", "write-then-reset", "decline", "mute"}
 
 var delays = []time.Duration{time.Second, 4900 * time.Millisecond, 5100 * time.Millisecond, 9 * time.Second}
 
@@ -189,8 +207,11 @@ const (
 	actPush = iota
 	actClose
 	actCloseAll
-	actHonestPush // honest H1 registers a protocol handler: its real identify pushes the new protocol list to the observer
+	actHonestPush   // honest H1 registers a protocol handler: its real identify pushes the new protocol list to the observer
+	actObserverPush // the OBSERVER registers a protocol handler: its identify opens push streams to every peer, byz included
 )
+
+const observerExtraProto = "/observer/extra/1"
 
 const honestExtraProto = "/h1/extra/1"
 
@@ -236,6 +257,8 @@ func (a actPlan) String() string {
 		return fmt.Sprintf("push on conn %d %s: %s", a.conn, a.trig, a.send)
 	case actClose:
 		return fmt.Sprintf("close conn %d by %s %s", a.conn, side, a.trig)
+	case actObserverPush:
+		return fmt.Sprintf("observer adds protocol %s (its identify pushes to every peer) %s", observerExtraProto, a.trig)
 	case actHonestPush:
 		return fmt.Sprintf("honest H1 adds protocol %s (its identify pushes to the observer) %s", honestExtraProto, a.trig)
 	}
@@ -243,12 +266,13 @@ func (a actPlan) String() string {
 }
 
 type plan struct {
-	sec       string
-	link      simnet.LinkMode
-	latency   bool
-	bigProtos bool // observer's peerstore accepts > 128 protocols
-	rsaByz    bool // byz's identity is an RSA key: its peer ID does not embed the public key
-	wipe      bool // rsaByz only: the application forgets byz (Peerstore.RemovePeer) before the action phase, so the
+	sec         string
+	link        simnet.LinkMode
+	latency     bool
+	bigProtos   bool // observer's peerstore accepts > 128 protocols
+	muteObsPush bool // byz never answers multistream-select on the streams the observer opens after its identify request (the observer's own pushes) and keeps them open
+	rsaByz      bool // byz's identity is an RSA key: its peer ID does not embed the public key
+	wipe        bool // rsaByz only: the application forgets byz (Peerstore.RemovePeer) before the action phase, so the
 	//              observer holds NO key for byz while identify messages carrying keys arrive
 	slow     int // scheduler yields the observer's peerstore spends in every call about byz ("slow peerstore")
 	byzIP    string
@@ -264,9 +288,9 @@ type plan struct {
 func drawSend(g simrt.Gen, w *world, idx *int, push bool) sendPlan {
 	var s sendPlan
 	if push {
-		s.mode = g.Weighted(12, 1, 1, 1, 1, 1, 1, 1, 0)
+		s.mode = g.Weighted(12, 1, 1, 1, 1, 1, 1, 1, 0, 1)
 	} else {
-		s.mode = g.Weighted(12, 2, 2, 1, 1, 1, 1, 1, 1)
+		s.mode = g.Weighted(12, 2, 2, 1, 1, 1, 1, 1, 1, 2)
 	}
 	if s.mode == modeDelay {
 		s.delay = delays[g.Int(len(delays))]
@@ -287,6 +311,7 @@ func drawPlan(g simrt.Gen) (*plan, *world) {
 	p.byzIP = []string{"10.0.1.2", "44.1.1.2"}[g.Weighted(3, 1)]
 	p.pre = g.Weighted(2, 2, 1)
 	p.rsaByz = g.Chance(1, 5)
+	p.muteObsPush = g.Chance(1, 3)
 	p.wipe = p.rsaByz && g.Bool()
 	w := newWorld(p.byzIP, p.rsaByz)
 	midx := 0
@@ -305,15 +330,18 @@ func drawPlan(g simrt.Gen) (*plan, *world) {
 	}
 	p.overlap = g.Chance(1, 3) && !p.wipe
 	nact := g.Weighted(1, 3, 4, 3, 2)
-	pushes, lastPushConn, honestPush := 0, -1, false
+	pushes, lastPushConn, honestPush, observerPush := 0, -1, false, false
 	for i := 0; i < nact; i++ {
 		var a actPlan
-		a.kind = g.Weighted(6, 4, 2, 1)
-		if a.kind == actHonestPush && honestPush {
+		a.kind = g.Weighted(6, 4, 2, 1, 1)
+		if (a.kind == actHonestPush && honestPush) || (a.kind == actObserverPush && observerPush) {
 			a.kind = actPush
 		}
 		if a.kind == actHonestPush {
 			honestPush = true
+		}
+		if a.kind == actObserverPush {
+			observerPush = true
 		}
 		if a.kind == actPush && pushes >= maxPushesPerRun {
 			a.kind = actClose
@@ -372,6 +400,7 @@ type bconn struct {
 	failed     bool
 	closed     bool   // a close by either side was started
 	closeStamp uint64 // taken BEFORE the close call
+	streams    int    // streams the observer opened on this connection so far
 	resp       sendPlan
 	local      ma.Multiaddr
 	remote     ma.Multiaddr
@@ -397,6 +426,7 @@ type obsConn struct {
 	connected    uint64
 	disconnected uint64
 	waitReleased bool
+	waitStart    time.Duration // virtual time of the IdentifyWait call
 	waitTimedOut bool
 	waitTook     time.Duration
 }
@@ -414,6 +444,7 @@ type sendRec struct {
 	mode       int
 	start, end uint64
 	outcome    string
+	wrote      bool // at least one byte of the message was handed to the stream
 }
 
 type trigger struct {
@@ -554,12 +585,23 @@ func drain(s bstream) {
 	}
 }
 
+// hold keeps a stream open without ever writing or resetting it: a task reads (without deadline) until the other
+// side gives up or the connection goes away. It returns at once.
+func (x *exec) hold(s bstream) {
+	s.SetDeadline(time.Time{})
+	simrt.GoNamed("byz-hold", func() {
+		drain(s)
+		s.Reset()
+	})
+}
+
 // send executes a send plan on a negotiated stream.
 func (x *exec) send(s bstream, sp sendPlan, conn int, push bool) {
 	r := &sendRec{msg: sp.msg, conn: conn, push: push, mode: sp.mode, start: simrt.Stamp()}
 	x.sends = append(x.sends, r)
 	s.SetDeadline(time.Now().Add(30 * time.Second))
 	write := func(chunks [][]byte) error {
+		r.wrote = true
 		if sp.coalesce {
 			var all []byte
 			for _, c := range chunks {
@@ -586,9 +628,8 @@ func (x *exec) send(s bstream, sp sendPlan, conn int, push bool) {
 		if err = write(sp.msg.chunks); err == nil {
 			err = s.Close()
 		}
-	case modeStall:
-		drain(s)
-		s.Reset()
+	case modeStall, modeMute: // (mute on an already negotiated stream degenerates to a stall)
+		x.hold(s)
 	case modeReset:
 		err = s.Reset()
 	case modeEmpty:
@@ -598,13 +639,19 @@ func (x *exec) send(s bstream, sp sendPlan, conn int, push bool) {
 		for _, c := range sp.msg.chunks {
 			all = append(all, c...)
 		}
+		r.wrote = true
 		if _, err = s.Write(all[:len(all)/2]); err == nil {
 			err = s.Close()
 		}
 	case modeHalfThenStall:
-		if err = write(sp.msg.chunks[:(len(sp.msg.chunks)+1)/2]); err == nil {
-			drain(s)
-			s.Reset()
+		if len(sp.msg.chunks) >= 2 {
+			err = write(sp.msg.chunks[:len(sp.msg.chunks)/2])
+		} else { // half of the bytes of the only chunk
+			r.wrote = true
+			_, err = s.Write(sp.msg.chunks[0][:len(sp.msg.chunks[0])/2])
+		}
+		if err == nil {
+			x.hold(s)
 		}
 	case modeWriteThenReset:
 		if err = write(sp.msg.chunks); err == nil {
@@ -622,6 +669,21 @@ func (x *exec) send(s bstream, sp sendPlan, conn int, push bool) {
 
 // serve handles a stream opened by the observer towards the byzantine peer.
 func (x *exec) serve(s bstream, c *bconn) {
+	if c != nil {
+		// the first stream the observer opens on a connection is (nearly always) its identify request; later ones
+		// are its own identify pushes. A misattribution only swaps which stream is muted.
+		c.streams++
+		if c.streams == 1 && c.resp.mode == modeMute {
+			x.sends = append(x.sends, &sendRec{msg: c.resp.msg, conn: c.idx, mode: modeMute, start: simrt.Stamp(), outcome: "held"})
+			x.hold(s)
+			return
+		}
+		if c.streams > 1 && x.pl.muteObsPush {
+			x.o.Fault("observer-stream-muted")
+			x.hold(s)
+			return
+		}
+	}
 	s.SetDeadline(time.Now().Add(30 * time.Second))
 	mux := x.muxFull
 	if c != nil && c.resp.mode == modeDecline {
@@ -667,6 +729,12 @@ func (x *exec) push(a actPlan) {
 	s, err := c.openStream(ctx)
 	if err != nil {
 		x.logf("  push %s on conn %d: cannot open stream", a.send.msg.tag, a.conn)
+		return
+	}
+	if a.send.mode == modeMute {
+		// open a stream towards the observer and say nothing at all
+		x.sends = append(x.sends, &sendRec{msg: a.send.msg, conn: a.conn, push: true, mode: modeMute, start: simrt.Stamp(), outcome: "held"})
+		x.hold(s)
 		return
 	}
 	s.SetDeadline(time.Now().Add(30 * time.Second))
@@ -719,6 +787,9 @@ func (x *exec) doAction(k int, a actPlan) {
 		c := x.conns[a.conn]
 		simrt.Recv("c13-ready", c.ready)
 		x.closeConn(c, a.byObs, fmt.Sprintf("action %d", k))
+	case actObserverPush:
+		x.logf("  [%d] observer registers %s", simrt.Stamp(), observerExtraProto)
+		x.O.Host.SetStreamHandler(observerExtraProto, func(s network.Stream) { s.Reset() })
 	case actHonestPush:
 		x.honestPushed = true
 		x.logf("  [%d] H1 registers %s", simrt.Stamp(), honestExtraProto)
@@ -840,7 +911,7 @@ func run(t *testing.T, tape *simrt.Tape) *common.Outcome {
 	o := &common.Outcome{}
 	pl, w := drawPlan(g)
 	x := &exec{o: o, w: w, pl: pl, completed: map[string]int{}}
-	o.Logf("security=%s link=%d latency=%v bigProtos=%v slowPeerstore=%d rsaByz=%v wipe=%v byzIP=%s pre=%d overlap=%v longAdvance=%v trim=%v finalByObserver=%v", pl.sec, pl.link, pl.latency, pl.bigProtos, pl.slow, pl.rsaByz, pl.wipe, pl.byzIP, pl.pre, pl.overlap, pl.longAdv, pl.trim, pl.finalObs)
+	o.Logf("security=%s link=%d latency=%v bigProtos=%v slowPeerstore=%d muteObserverPushes=%v rsaByz=%v wipe=%v byzIP=%s pre=%d overlap=%v longAdvance=%v trim=%v finalByObserver=%v", pl.sec, pl.link, pl.latency, pl.bigProtos, pl.slow, pl.muteObsPush, pl.rsaByz, pl.wipe, pl.byzIP, pl.pre, pl.overlap, pl.longAdv, pl.trim, pl.finalObs)
 	for i, c := range pl.conns {
 		dir := "byz dials"
 		if c.outbound {
@@ -981,6 +1052,7 @@ func (x *exec) main(tape *simrt.Tape) {
 			x.obsConns = append(x.obsConns, oc)
 			simrt.GoNamed("c13-idwait", func() {
 				t0 := simrt.Now()
+				oc.waitStart = t0
 				ch := ids.IdentifyWait(c)
 				tm := time.NewTimer(identifyWaitBound)
 				defer tm.Stop()
@@ -1222,8 +1294,9 @@ func (x *exec) main(tape *simrt.Tape) {
 		o.Violate("C13/cross-talk/peer-set", "peers known to the observer: before %s, after %s", peersBefore, pa)
 	}
 	for _, oc := range x.obsConns {
-		if oc.waitTimedOut || !oc.waitReleased {
-			o.Violate("C13/identify-wait-not-released", "IdentifyWait of the observer's connection to %s (%s) did not close within %v (released=%v)", w.name(oc.c.RemotePeer()), oc.c.Stat().Direction, identifyWaitBound, oc.waitReleased)
+		// (a wait that is younger than the bound at this instant is judged at the end of the run)
+		if oc.waitTimedOut || (!oc.waitReleased && simrt.Now()-oc.waitStart > identifyWaitBound) {
+			o.Violate("C13/identify-wait-not-released", "IdentifyWait of the observer's connection to %s (%s) did not close within %v (released=%v; sends: %s)", w.name(oc.c.RemotePeer()), oc.c.Stat().Direction, identifyWaitBound, oc.waitReleased, x.sendSummary())
 		}
 	}
 
@@ -1273,6 +1346,28 @@ func (x *exec) main(tape *simrt.Tape) {
 			}
 		}
 		x.checkByz("after-advance", false)
+		// Stream audit (identify.DefaultTimeout: "for all id interactions, incoming / outgoing, id / id-push"): long
+		// after the last activity no identify or identify-push stream of the observer is still open on a connection
+		// to byz, whatever byz did with it (never negotiated, negotiated and went silent, half a message).
+		o.Probe("stream-audit")
+		for _, oc := range O.Swarm.ConnsToPeer(w.byz.id) {
+			for _, st := range oc.GetStreams() {
+				name := ""
+				switch st.Protocol() {
+				case identify.ID:
+					name = "id"
+				case identify.IDPush:
+					name = "id-push"
+				default:
+					continue
+				}
+				dir := "inbound"
+				if st.Stat().Direction == network.DirOutbound {
+					dir = "outbound"
+				}
+				o.Violate("C13/identify-stream-left/"+dir+"-"+name, "%v after the last activity the observer still holds an open %s %s stream on a connection to byz (sends: %s)", adv, dir, st.Protocol(), x.sendSummary())
+			}
+		}
 		// ---- final closes, one at a time, at quiescence
 		for _, c := range x.conns {
 			if !c.failed && !c.closed {
@@ -1381,7 +1476,7 @@ func addName(set, name string) string {
 
 func (x *exec) vouchedByAny(a string) bool {
 	for _, s := range x.sends {
-		if s.msg.vouched[a] {
+		if s.wrote && s.msg.vouched[a] {
 			return true
 		}
 	}
